@@ -735,7 +735,30 @@ def take_orders(a, orders):
     return res
 
 
-def run_step(impl, idx, a, op):
+REL_TAGS = _collections.Counter()       # relation tags used in this run (evidence)
+# Relations the UNCHANGED library mishandles or rejects (established with IIDX_RELS_ALL=1; notes, RELATION FINDINGS): not generated
+RELS_OFF = set()
+
+
+def rel_ok(kind):
+    import os
+    return bool(os.environ.get("IIDX_RELS_ALL")) or kind not in RELS_OFF
+
+
+def freeze(obj):
+    """Content of an argument object (mapping / sequence / mask / counts), to see whether a call modified it."""
+    if obj is None:
+        return None
+    if isinstance(obj, dict):
+        return ("dict", type(obj).__name__, [(repr(k), repr(v)) for k, v in obj.items()])
+    if isinstance(obj, numpy.ndarray):
+        return ("ndarray", obj.dtype.str, obj.shape, obj.tobytes())
+    if isinstance(obj, (list, tuple, range)):
+        return (type(obj).__name__, [id(x) if isinstance(x, dict) else repr(x) for x in obj])
+    return repr(obj)
+
+
+def run_step(impl, idx, a, op, objs=None):
     """Run `op` on the real index `idx` (dense content `a` according to NumPy so far).
 
     Returns a Step with: before (spec), raised, result (the real index the history continues with),
@@ -760,26 +783,66 @@ def run_step(impl, idx, a, op):
     result = idx
     F = Forms(op.get("fseed"))
     st.forms = F.tags
+    objs = {} if objs is None else objs
+    args = []              # (label, argument object, frozen content before): mappings, sequences, masks must not be modified
+    twice = bool(op.get("twice"))
+    st.rel = []
+    if twice:
+        st.rel.append("twice:" + o)
+
+    def call(f):
+        """The real call; with op['twice'] the SAME call with the SAME argument objects is made twice: a mutating call must
+        be idempotent, a transformed copy must come out the same both times; the second result is the step's result."""
+        r = f()
+        if twice:
+            first = None if r is None else spec_of(r)
+            r = f()
+            if first is not None and (first["shape"] != spec_of(r)["shape"] or first["common"] != spec_of(r)["common"] or not sane_for_densify(first)
+                                      or not sane_for_densify(spec_of(r)) or not (densify(first) == densify(spec_of(r))).all()):
+                st.problems.append(("C06", "%s:second-call-differs" % name, "the same call with the same argument objects gave %r the first time and %r the second time" % (first, spec_of(r))))
+        return r
+
+    def arg(label, obj):
+        args.append((label, obj, freeze(obj)))
+        return obj
     try:
         if o == "shift":
-            idx.shift_common()
+            call(lambda: idx.shift_common())
             st.expect = a
             st.libchosen = True
         elif o == "shiftv":
-            idx.shift_common(F.scalar(op["v"], "shift_common-v"))
+            fv = F.scalar(op["v"], "shift_common-v")
+            call(lambda: idx.shift_common(fv))
             st.expect = a
             if idx.common != op["v"]:
                 st.problems.append(("C06", "shift_common:common-not-set", "common is %r after shift_common(%r)" % (idx.common, op["v"])))
         elif o == "append":
-            other = build(impl, op["other"], F)
-            operands.append(("other", other, snap(other)))
+            key = op.get("reuse")
+            if key == "self":
+                other = idx                                   # idx.append(idx)
+                st.rel.append("self-append")
+            elif key is not None and key in objs:
+                other = objs[key][0]                          # the SAME operand object as in an earlier step
+                st.rel.append("operand-reused:append")
+                if snap(other) != objs[key][1]:
+                    st.problems.append(("C06", "append:reused-operand-was-changed", "the operand %r no longer has the content it had before its first use: %r" % (op["other"], spec_of(other))))
+            else:
+                other = build(impl, op["other"], F)
+                if key is not None:
+                    objs[key] = (other, snap(other), densify(op["other"]))
+            if other is not idx:
+                operands.append(("other", other, snap(other)))
             st.expect = numpy.concatenate([a, densify(op["other"])])
             st.libchosen = True
             idx.append(other)
-            if shares(arrays_of(idx), arrays_of(other)):
+            if other is not idx and shares(arrays_of(idx), arrays_of(other)):
                 st.problems.append(("C06", "append:aliases-operand", "receiver shares row-id storage with the appended index"))
         elif o == "update":
             ents = {tuple(k): F.rowids(rows, "update-rowids", allow=("view", "view", "int64", "list", "readonly")) for k, rows in op["entries"]}
+            if op.get("own_arrays"):
+                # update with the receiver's OWN row-id arrays (the same array objects), content as recorded in op["entries"]
+                ents = {tuple(k): dict.get(idx, tuple(k)) for k, rows in op["entries"]}
+                st.rel.append("update-with-own-arrays")
             operands.append(("entries", ents, snap(ents)))
             b = a.copy()
             for k, rows in op["entries"]:
@@ -795,7 +858,11 @@ def run_step(impl, idx, a, op):
             else:
                 ents = {tuple(k): (None if rows is None else F.rowids(rows, "setop-dict-rowids", allow=("view", "view", "int64", "list", "readonly"))) for k, rows in op["other"]}
             other = impl.iindex({k: v for k, v in ents.items()}, rng_common(op), tuple(st.before["shape"])) if op.get("as_index") else ents
-            operands.append(("other", other, snap(other)))
+            if op.get("other_self"):
+                other = idx                                   # idx.union_update(idx) etc.; op["other"] records the receiver's entries
+                st.rel.append("self-operand:" + o)
+            else:
+                operands.append(("other", other, snap(other)))
             cur = {tuple(k): set(rows) for k, rows in st.before["entries"]}
             oth = {tuple(k): set(rows) for k, rows in op["other"] if rows is not None}
             exp = {}
@@ -803,7 +870,7 @@ def run_step(impl, idx, a, op):
                 for k in list(cur) + [k for k in oth if k not in cur]:
                     exp[k] = cur.get(k, set()) | oth.get(k, set())
                 idx.union_update(other)
-                if shares(arrays_of(idx), arrays_of(other)):
+                if other is not idx and shares(arrays_of(idx), arrays_of(other)):
                     st.problems.append(("C06", "union_update:aliases-operand", "receiver shares row-id storage with the operand (documented copy)"))
             elif o == "inter":
                 for k in cur:
@@ -828,14 +895,19 @@ def run_step(impl, idx, a, op):
                 st.problems.append(("C06", "set_if:aliases-value", "set_if(copy=True) stored the caller's array"))
         elif o == "copy":
             st.expect = a
-            result = idx.copy()
+            if op.get("hold"):
+                objs.setdefault("held", []).append((idx, a.copy(), snap(idx)))      # the source stays under observation
+                st.rel.append("source-held-after-copy")
+            result = idx.copy().copy() if twice else idx.copy()
             if shares(arrays_of(result), arrays_of(idx)):
                 st.problems.append(("C06", "copy:shares-storage", "copy() shares row-id storage with its source"))
         elif o == "filtered":
             mask = numpy.array(op["mask"], dtype=bool)
             st.expect = a[mask]
             st.libchosen = True
-            result = idx.filtered(F.mask(op["mask"]), F.scalar(int(mask.sum()), "filtered-new_length"))
+            fmask = arg("mask", F.mask(op["mask"]))
+            fn = F.scalar(int(mask.sum()), "filtered-new_length")
+            result = call(lambda: idx.filtered(fmask, fn))
             if shares(arrays_of(result), arrays_of(idx)):
                 st.problems.append(("C06", "filtered:shares-storage", "filtered() shares row-id storage with its source"))
         elif o == "reindexed":
@@ -845,7 +917,8 @@ def run_step(impl, idx, a, op):
                 listed = sorted({k[0] for k in dict.keys(idx)})
                 mm = {v: i for i, v in enumerate(listed)}
             st.expect = numpy.vectorize(lambda v: mm.get(v, v), otypes=[int])(a) if a.size else a
-            result = idx.reindexed(F.mapping(m, "reindexed"), copy=op["copy"], shift=op["shift"])
+            fm = arg("mapping", F.mapping(m, "reindexed"))
+            result = call(lambda: idx.reindexed(fm, copy=op["copy"], shift=op["shift"]))
             if op["copy"] and shares(arrays_of(result), arrays_of(idx)):
                 st.problems.append(("C06", "reindexed:shares-storage", "reindexed(copy=True) shares row-id storage with its source"))
         elif o == "collapsed":
@@ -864,7 +937,9 @@ def run_step(impl, idx, a, op):
                         out.append(op["prec"][-1])
                 st.expect = numpy.array(out, dtype=int)
                 st.libchosen = True
-            result = idx.collapsed(F.seq(op["prec"], "precedence", kinds=("tuple", "ndarray", "list"), scalar_items=True), F.mapping(m, "collapsed"))
+            fprec = arg("precedence", F.seq(op["prec"], "precedence", kinds=("tuple", "ndarray", "list"), scalar_items=True))
+            fm = arg("mapping", F.mapping(m, "collapsed"))
+            result = call(lambda: idx.collapsed(fprec, fm))
         elif o == "sliced":
             orders = [x if (x is None or isinstance(x, int)) else list(x) for x in op["orders"]]
             f_orders = [x if x is None else (F.scalar(x, "sliced-int") if isinstance(x, int) else F.seq(x, "sliced-order")) for x in orders]
@@ -872,15 +947,23 @@ def run_step(impl, idx, a, op):
                 st.expect_raise = "TypeError"
             else:
                 st.expect = take_orders(a, orders)
-            result = idx.sliced(*f_orders)
+            for fo in f_orders:
+                arg("order", fo)
+            result = call(lambda: idx.sliced(*f_orders))
         elif o == "column_stack":
             pre = [build(impl, s, F) for s in op["pre"]]
-            post = [build(impl, s, F) for s in op["post"]]
+            nself = int(op.get("post_self") or 0)       # column_stack([..., a, a, ...]): the receiver itself again
+            post = [idx if j < nself else build(impl, s, F) for j, s in enumerate(op["post"])]
+            if nself:
+                st.rel.append("self-operand:column_stack")
             for i, x in enumerate(pre + post):
-                operands.append(("input %d" % i, x, snap(x)))
+                if x is not idx:
+                    operands.append(("input %d" % i, x, snap(x)))
             arrs = [densify(s) for s in op["pre"]] + [a] + [densify(s) for s in op["post"]]
             st.expect = numpy.concatenate([x if x.ndim == 2 else x[:, None] for x in arrs], axis=1)
-            result = impl.column_stack(pre + [idx] + post, new_common=F.scalar(op["new_common"], "new_common"), copy=op["copy"])
+            inputs = arg("inputs", pre + [idx] + post)
+            fnc = F.scalar(op["new_common"], "new_common")
+            result = call(lambda: impl.column_stack(inputs, new_common=fnc, copy=op["copy"]))
             if op["new_common"] is not None and result.common != op["new_common"]:
                 st.problems.append(("C06", "column_stack:common-not-set", "common is %r" % (result.common,)))
             if op["copy"] and shares(arrays_of(result), [v for x in pre + [idx] + post for v in arrays_of(x)]):
@@ -951,6 +1034,7 @@ def run_step(impl, idx, a, op):
             w = py_wf(idx)
             if w:
                 st.problems.append(("C07", "%s:illformed-after-exception" % name, "receiver after the failed call: " + w))
+        after_checks(st, name, operands, args, objs, idx)
         tag_forms(st)
         return st
     st.after = spec_of(result)
@@ -981,8 +1065,30 @@ def run_step(impl, idx, a, op):
             st.problems.append(("C06", "%s:operand-changed" % name, "%s was modified by the call" % label))
     if not mutates and snap(idx) != recv_snap:
         st.problems.append(("C06", "%s:receiver-changed" % name, "a non-mutating operation modified its receiver"))
+    after_checks(st, name, operands, args, objs, idx)
     tag_forms(st)
     return st
+
+
+def after_checks(st, name, operands, args, objs, idx):
+    """Relations: index operands must still be well-formed, argument objects unchanged, held indexes untouched."""
+    for label, obj, before in operands:
+        if hasattr(obj, "validate") and hasattr(obj, "shape"):
+            w = py_wf(obj)
+            if w:
+                st.problems.append(("C07", "%s:operand-illformed-after-call" % name, "%s after the call: %s" % (label, w)))
+    for label, obj, before in args:
+        if freeze(obj) != before:
+            st.problems.append(("C06", "%s:argument-changed" % name, "the %s object passed to the call was modified: before %r, after %r" % (label, before, freeze(obj))))
+    for (h_idx, h_a, h_snap) in objs.get("held", []):
+        if h_idx is idx:
+            continue
+        if snap(h_idx) != h_snap:
+            st.problems.append(("C06", "%s:unrelated-index-changed" % name, "an index that is neither receiver nor operand of this call (an earlier state, kept after copy()) changed: now %r" % (spec_of(h_idx),)))
+            w = py_wf(h_idx)
+            if w:
+                st.problems.append(("C07", "%s:unrelated-index-illformed" % name, "an earlier state kept after copy(): " + w))
+    REL_TAGS.update(st.rel)
 
 
 def tag_forms(st):
